@@ -59,6 +59,15 @@ def run_replay(prop, job, ob, inputs, log):
                description=ob['description'], location=ob['loc'], real=ob.get('real'), solver=ob.get('solver'),
                inputs=inputs, reproduced=None, native_output=None,
                solver_output=dict(status='FAILURE', trace_steps=len(ob.get('trace') or [])))
+    m = re.match(r'^([\w.\-]+\.(?:spec|smt2|h)):(\d+)$', str(ob.get('loc') or ''))
+    if m:
+        for base in (os.path.join(ROOT, 'specs'), os.path.join(ROOT, 'vp', 'prelude')):
+            pth = os.path.join(base, m.group(1))
+            if os.path.exists(pth):
+                try:
+                    rec['obligation_text'] = open(pth).read().split('\n')[int(m.group(2)) - 1].strip()[:600]
+                except Exception:
+                    pass
     rep = NAT.find_replay(job)
     if ob.get('solver') == 'native':
         # a bounded native enumeration ran the REAL templates itself: its output is the demonstration
